@@ -27,6 +27,7 @@ type c01Case struct {
 	Env     []int   `json:"env,omitempty"` // choice prefix for the random-source seam
 	Fits    bool    `json:"fits"`
 	Warm    int     `json:"warm"` // 0: fresh key objects; 1/2: both key objects first carry a long / an empty message (history on one SA)
+	PadOctet int    `json:"pad_octet"` // > 0: the random source serves the constant octet PadOctet-1 (every outcome of the random padding)
 }
 
 // warmMsg is the message a "used" SA has carried before the case under test.
@@ -148,6 +149,20 @@ func runC01(c *engine.Ctx) {
 			}
 		}
 	}
+	// every outcome of the random padding / IV that a constant source can produce: all 256 octet values × all
+	// 16 alignments of the inner payload chain (a receiver that guesses the padding convention from the pad
+	// octets shows here)
+	for n := 0; n < 16; n++ {
+		for oct := 0; oct < 256; oct++ {
+			if !c.Mine() {
+				continue
+			}
+			m := ref.Msg{H: univ.BaseHdr, P: []ref.Payload{{T: ref.PNonce, Data: univ.Pat(n+1, n)}}}
+			for _, si := range []int{0, 4, 8} {
+				evalC01(c, c01Case{K: "rt", Name: fmt.Sprintf("padding.octet×align=%d/%d", oct, n), M: m, Suite: si, Pattern: 2, SenderI: (n+oct)%2 == 0, ParseH: oct%2 == 0, Fits: true, PadOctet: oct + 1})
+			}
+		}
+	}
 	i := 0
 	univ.Sweeps(c.Thorough(), func(name string, m ref.Msg, fits bool) {
 		i++
@@ -239,6 +254,9 @@ func evalC01env(c *engine.Ctx, cs c01Case, r *engine.Run) {
 		return
 	}
 	seam := engine.NewSeam(r, []int{engine.AnsA, engine.AnsZero, engine.AnsFF, engine.AnsShort})
+	if cs.PadOctet > 0 {
+		seam.Default = engine.AnsConst + cs.PadOctet - 1
+	}
 	restore := engine.Install(seam)
 	var b []byte
 	pi := engine.Catch(func() { b, err = ike.EncodeEncrypt(lm, saS, roleOf(cs.SenderI)) })
